@@ -41,8 +41,8 @@ CLAIMS = {
          "storage x mode x OCSP answer.",
          "Coq proofs layered reader/store/repository/verifier + end-to-end correspondence", "DESIGN.md §3 C01", ""),
  "C08": ("Coq theorems over the repository model: C08_failed_refresh_keeps (a refresh that obtains nothing acceptable leaves the whole "
-         "state unchanged, for every failure kind incl. storage faults), C08_all_or_nothing, C08_later_success, C08_old_then_new; "
-         "histories with every failure kind and injected staging/consumer faults on both real backends compared with the model.",
+         "state unchanged, for every failure kind incl. storage faults), C08_all_or_nothing, C08_later_success, C08_later_success_after_rollover (the repository learns a new signer from a handshake chain after a refresh failed verification; key rollover is part of the model), C08_old_then_new; "
+         "histories with every failure kind, injected staging/consumer faults and key rollovers on both real backends compared with the model; 16 observer goroutines during 36 (thorough: 200) refreshes in a child process (a serial on every version is always rejected, a version never returns once a newer one was seen).",
          "Coq invariant proofs over the repository state machine + fault-injected history correspondence", "DESIGN.md §3 C08",
          "the interleaving statement is proved on the lock-granular model (lookups and the commit are atomic sections); that sync.RWMutex and the LevelDB rename+reopen provide that atomicity is exercised, not proved."),
  "C10": ("Coq theorems C10_strict / C10_strict_denies_unusable / C10_lenient over every history of the repository model "
